@@ -1037,4 +1037,39 @@ Proof.
   apply in_or_app. right. now left.
 Qed.
 
+(* ------------------------------------------------------------------ caller-owned argument buffers *)
+Theorem wrun_resolve im : forall ws mk bs,
+  wrun impl beh im mk bs ws = run_ops impl beh im mk (resolve bs ws).
+Proof.
+  induction ws as [|w ws IH]; intros mk bs; simpl; [reflexivity|].
+  destruct (wnext bs w) as [bs' [o|]]; simpl; [|apply IH].
+  destruct (step impl beh im mk o) as [mk1 ob]. rewrite IH. reflexivity.
+Qed.
+
+Definition is_bufop (w : wop) : Prop :=
+  match w with WSetBuf _ _ | WMutate _ _ _ => True | _ => False end.
+
+Lemma wrun_bufops im mk : forall ws bs, Forall is_bufop ws -> wrun impl beh im mk bs ws = (mk, []).
+Proof.
+  induction ws as [|w ws IH]; intros bs F; simpl; [reflexivity|].
+  inversion F as [|? ? Hw F']; subst. destruct w; simpl in *; try tauto; apply IH; exact F'.
+Qed.
+
+(* The expectation registered by spreading buffer b keeps the values b held at registration,
+   whatever the caller writes into b afterwards. *)
+Theorem registration_copies im mk bs mi s fixed b ss muts mk1 :
+  nth_error (im_methods im) mi = Some s ->
+  expect (im_unroll im) s mk (fixed ++ getbuf b bs) ss = Ok mk1 ->
+  Forall is_bufop muts ->
+  fst (wrun impl beh im mk bs (WExpectBuf mi fixed b ss :: muts)) = mk1 /\
+  exists e, m_exp mk1 = m_exp mk ++ [e] /\ e_args e = fixed ++ getbuf b bs /\ e_method e = ms_name s.
+Proof.
+  intros NS E F. split.
+  - simpl. rewrite NS, E. rewrite (wrun_bufops im mk1 muts bs F). reflexivity.
+  - destruct (expect_registers _ _ _ _ _ _ E) as (EX & _).
+    eexists. split; [exact EX|].
+    destruct (fold_setup_keeps (im_unroll im) s ss (new_expectation (ms_name s) (fixed ++ getbuf b bs))) as [A B0].
+    split; [exact B0 | exact A].
+Qed.
+
 End Proofs.
